@@ -262,6 +262,52 @@ def run_case(report, drv, stores, rng, keys, m, seen):
     report.count("mutation_" + m)
 
 
+def ws_session(report, backend, rng, keys, tag):
+    """the same mutations through the real web.start_client on ONE connection, genuine events in between: whatever came
+    before on the connection, an OK frame says true only for an authentic event, and names the event it answers"""
+    from lib.proto import Relay, Conn
+
+    relay = Relay(backend)
+    try:
+        c = Conn(relay)
+        obs = Conn(relay, remote_addr="9.9.9.9")
+        obs.send(["REQ", "watch", {"kinds": [1, 7, 30000, 31494]}])
+        seq = []
+        for _ in range(rng.randint(5, 9)):
+            seq.append(rng.choice(MUTATIONS))
+            if rng.random() < 0.6:
+                seq.append("none")
+        sent = []
+        for m in seq:
+            ev = mutate(rng, keys, m)
+            facts = facts_of(ev)
+            n, n_obs = len(c.out), len(obs.out)
+            if c.done:
+                break
+            c.send(["EVENT", ev])
+            sent.append((m, ev))
+            payload = {"kind": "ws", "backend": backend, "mutation": m, "session": [{"mutation": a, "event": b} for a, b in sent]}
+            oks = [f for f in c.frames(n) if isinstance(f, list) and f and f[0] == "OK"]
+            pushed = [f for f in obs.frames(n_obs) if isinstance(f, list) and f[0] == "EVENT" and isinstance(f[2], dict)
+                      and f[2].get("id") == ev.get("id")]
+            stored = isinstance(ev.get("id"), str) and ev["id"] in relay.store.ids()
+            for f in oks:
+                if len(f) >= 3 and f[2] is True and not authentic(facts):
+                    report.property_failure("%s: a non-authentic event (%s, sent after %d other EVENT messages on the connection) was "
+                                            "acknowledged with OK true: %r" % (backend, m, len(sent) - 1, f[:4]), payload, None)
+                if len(f) >= 3 and f[2] is True and f[1] != ev.get("id"):
+                    report.property_failure("%s: OK true names %r, not the submitted event" % (backend, f[1]), payload, None)
+            if (pushed or stored) and not authentic(facts):
+                report.property_failure("%s: a non-authentic event (%s) was %s" % (backend, m, "pushed to a subscriber" if pushed else "stored"),
+                                        payload, None)
+            report.count("ws_events_" + backend)
+        report.case(("ws", backend, tag, repr([m for m, _ in sent])), nontrivial=True,
+                    sample={"backend": backend, "session": [m for m, _ in sent]})
+        report.count("ws_sessions_" + backend)
+    finally:
+        relay.close()
+
+
 def run(report, tier, seed):
     rng = random.Random(seed)
     drv = common.Driver()
@@ -277,7 +323,8 @@ def run(report, tier, seed):
         "events under the relay's own service pubkey (genuine, forged / foreign signature, content changed; also in the shape of "
         "a role assignment), content/created_at/kind/tags changed after signing, string created_at, NIP-26 delegation valid/forged/"
         "transplanted/3-item/5-item/bad-hex/conditions-changed, resubmission with a zeroed signature (also after the "
-        "genuine event was deleted); both backends; non-trivial = a mutated event" % (len(set(MUTATIONS)) - 1))
+        "genuine event was deleted); both backends; sessions of 5-15 such events, genuine ones in between, on one connection "
+        "through the real start_client (every OK frame, push and the store are checked); non-trivial = a mutated event" % (len(set(MUTATIONS)) - 1))
     report.assumptions += ["SHA-256 (hashlib) and BIP-340 (coincurve) are trusted; the NIP-01 serialisation is the "
                            "relay's own (rapidjson, ensure_ascii=False)"]
     try:
@@ -290,6 +337,9 @@ def run(report, tier, seed):
         for st in stores:
             st.close()
         drv.close()
+    for i in range(3 if tier == "quick" else 60):
+        for backend in ("sql", "kv"):
+            ws_session(report, backend, rng, keys, i)
 
 
 def replay(report, path):
@@ -302,6 +352,25 @@ def replay(report, path):
     try:
         for it in (data.get("violations") or []) + (data.get("correspondence_breaks") or []):
             r = it.get("replay") or it.get("input")
+            if r.get("kind") == "ws":
+                from lib.proto import Relay, Conn
+
+                relay = Relay(r["backend"])
+                try:
+                    c = Conn(relay)
+                    for step in r["session"]:
+                        n = len(c.out)
+                        if c.done:
+                            break
+                        c.send(["EVENT", step["event"]])
+                        for f in c.frames(n):
+                            if isinstance(f, list) and f and f[0] == "OK" and len(f) >= 3 and f[2] is True \
+                                    and not authentic(facts_of(step["event"])):
+                                report.property_failure("%s: non-authentic event (%s) acknowledged with OK true" % (r["backend"], step["mutation"]), r, None)
+                    report.case(("replay-ws", len(r["session"])), nontrivial=True)
+                finally:
+                    relay.close()
+                continue
             ev = r["event"]
             facts = facts_of(ev)
             for st in stores:
